@@ -16,22 +16,41 @@
 (***************************************************************************)
 EXTENDS Naturals, FiniteSets
 
-CONSTANTS MaxGen,        \* bound on unlock operations per behaviour
+\* The @type comments are for Apalache (UnlockStateInd.tla: inductive invariant); TLC ignores them.
+CONSTANTS
+          \* @type: Int;
+          MaxGen,        \* bound on unlock operations per behaviour
+          \* @type: Bool;
           PointerCheck   \* TRUE: as the code; FALSE: expire removes whatever entry the map holds (must fail)
 
-VARIABLES entry,         \* 0 = locked, g > 0 = the entry of generation g
+VARIABLES
+          \* @type: Int;
+          entry,         \* 0 = locked, g > 0 = the entry of generation g
+          \* @type: Int -> Str;
           kind,          \* function: generation -> "indef" | "timed"
+          \* @type: Set(Int);
           aborted,       \* set of generations whose abort channel is closed
+          \* @type: Set(Int);
           timers,        \* set of generations whose expire goroutine still runs
+          \* @type: Int -> Int;
           lockers,       \* bag of Lock calls between reading the entry and expiring it: function call number -> generation read
-          ngen, ncall,
+          \* @type: Int;
+          ngen,
+          \* @type: Int;
+          ncall,
+          \* @type: {a: Str, g: Int, removed: Int};
           last           \* what the last step did: [a, g, removed]
 vars == <<entry, kind, aborted, timers, lockers, ngen, ncall, last>>
 
-Init == /\ entry = 0 /\ kind = <<>> /\ aborted = {} /\ timers = {} /\ lockers = <<>> /\ ngen = 0 /\ ncall = 0
+\* the empty maps as functions over the empty set (equal to <<>> in TLC; typable for Apalache)
+NoKind == [x \in {} |-> "indef"]
+NoLockers == [x \in {} |-> 0]
+Init == /\ entry = 0 /\ kind = NoKind /\ aborted = {} /\ timers = {} /\ lockers = NoLockers /\ ngen = 0 /\ ncall = 0
         /\ last = [a |-> "init", g |-> 0, removed |-> 0]
 
+\* @type: (a -> b, a, b) => (a -> b);
 Put(f, k, v) == [x \in (DOMAIN f) \cup {k} |-> IF x = k THEN v ELSE f[x]]
+\* @type: (a -> b, a) => (a -> b);
 Drop1(f, k) == [x \in (DOMAIN f) \ {k} |-> f[x]]
 
 \* TimedUnlock(a, pass, timeout) with the right passphrase; timeout = 0 is Unlock
